@@ -61,12 +61,12 @@ def run(ctx):
     res = {}
 
     # ---- (A) design, vacuity, negative controls; (B) generators + replay: independent pipelines run
-    # concurrently (4 JVMs, <= 6 TLC workers in total at any time)
+    # concurrently (<= 5 JVMs, <= 6 TLC workers in total at any time)
     def negs():
         return [vlib.tlc_neg(ctx, "CDCEvents", "CDCEvents_neg_%s.cfg" % sw, expect="Exact", workers=1) for sw in SWITCHES]
 
     def models():
-        out = [vlib.tlc(ctx, "CDCEvents", ctx.pick("CDCEvents_mc.cfg", "CDCEvents_mc3.cfg"), workers=3, timeout=3000, coverage=False)]
+        out = [vlib.tlc(ctx, "CDCEvents", ctx.pick("CDCEvents_mc.cfg", "CDCEvents_mc3.cfg"), workers=ctx.pick(2, 3), timeout=3000, coverage=False)]
         if ctx.thorough:
             out.append(vlib.tlc(ctx, "CDCEvents", "CDCEvents_mc4.cfg", workers=4, timeout=3400, coverage=False, heap="12g"))
         return out
@@ -77,15 +77,18 @@ def run(ctx):
         tr = os.path.join(ctx.scratch, name + ".trace.ndjson")
         vlib.write_nd(inp, cases)
         p = ctx.run_harness(["cdcev-replay", "-in", inp, "-out", out, "-trace", tr, "-every", str(every),
-                             "-tracemax", str(tracemax)] + (["-bulk", str(ctx.pick(2000, 20000))] if name == "rand" else []), timeout=3000)
+                             "-execevery", str(ctx.pick(2, 1)), "-tracemax", str(tracemax)] + (["-bulk", str(ctx.pick(2000, 20000))] if name == "rand" else []), timeout=3000)
         st = json.loads(p.stdout.strip().splitlines()[-1])
         return {"stat": st["stat"], "samples": st["samples"], "mism": vlib.read_nd(out), "trace": vlib.read_nd(tr), "cases": cases}
 
     def gen_pipeline():
-        cases = []
-        for cfg in (["CDCEvents_gen2.cfg", "CDCEvents_gen4c.cfg"] + (["CDCEvents_gen3.cfg"] if ctx.thorough else [])):
-            cs, r = vlib.tlc_cases(ctx, "CDCEvents", cfg, timeout=3000)
-            cases += cs
+        cfgs = ["CDCEvents_gen2.cfg", "CDCEvents_gen4c.cfg"] + (["CDCEvents_gen3.cfg"] if ctx.thorough else [])
+        one = lambda cfg: vlib.tlc_cases(ctx, "CDCEvents", cfg, timeout=3000)[0]
+        if ctx.thorough:
+            cases = [c for cfg in cfgs for c in one(cfg)]
+        else:       # the two small generators side by side
+            got = _parallel([(cfg, (lambda cfg=cfg: one(cfg))) for cfg in cfgs])
+            cases = [c for cfg in cfgs for c in got[cfg]]
         if len(cases) < 1000:
             raise vlib.Undecided("generator produced too few sessions (%d)" % len(cases))
         return replay("gen", cases, ctx.pick(4, 2), ctx.pick(1500, 6000))
